@@ -38,6 +38,8 @@ def report_violation(prop, world, seed, res, repo):
     vclass = (v["prop"], v["inv"], v["sig"])
     ops = res["ops"]
     wcls = core.WORLDS[world]
+    if res.get("narrow_ops") and core._reproduces(world, prop, res["header"], res["narrow_ops"], vclass, res["run_seed"]):
+        ops = res["narrow_ops"]
     if getattr(wcls, "shrinkable", True) and len(ops) > 1:
         try:
             ops = core.ddmin(world, prop, res["header"], ops, vclass, res["run_seed"],
